@@ -16,11 +16,11 @@ CLAIMED = {
             'correction, the errors and the total with the covariance-input terms. The executable model is tied to pyerrors by a differential check at 1e-8 '
             '(fft on and off) and the specification itself is evaluated on the implementation\'s outputs for every generated case.',
             'Lean kernel; axioms propext/Classical.choice/Quot.sound; the theorem is over the reals (IEEE rounding absorbed by the tolerance of the correspondence); FFT path and libm by contract (measured each run); chains of a single configuration (w_max = 0) are outside the theorem (pyerrors raises there); generator-bounded correspondence.', '5 C02'),
-    'C03': ('Lean 4 theorems (affine relabelling / renaming invariance of the model, call-history refinement, parameter precedence, tau>=1/2; attribute frames regenerated from the AST and decided) + invariances evaluated on the implementation',
+    'C03': ('Lean 4 theorems (affine relabelling / renaming invariance of the model, data rescaling c*x: same tau, window, rho and |c| times the errors, additive constant: same fluctuations, call-history refinement, parameter precedence, tau>=1/2; attribute frames regenerated from the AST and decided) + invariances evaluated on the implementation (exact transformations must reproduce the window exactly)',
             'Proof: the model of gamma_method is proved invariant under i -> a*i+b and replica renaming for every input, the '
             'history state machine is proved to depend only on the last analysis and the parameters effective then (argument over '
             'dictionary over global), and the write/reset/read frames of gamma_method and derived_observable are regenerated from '
-            'the source on every run and decided. Every invariance of the statement is additionally evaluated on the implementation.',
+            'the source on every run and decided. The Gamma method of the specification applied to c*data is proved to give the same tau_int, window, rho and |c| times the errors (zero-variance guard as explicit hypothesis). Every invariance of the statement is additionally evaluated on the implementation.',
             'Lean kernel; standard axioms; tr_frames (Python ast) trusted to parse; FFT by contract; generator-bounded search.', '5 C03'),
     'C01': ('Lean 4 theorems: 31 gradient call sites regenerated from obs.py are the analytic derivatives (HasDerivAt); value / replica means / chains / union / range normal form / covariance chain rule of derived_observable; + model/impl correspondence on random operator trees + by-configuration-number oracle',
             'Proof: every hand-written gradient of the overloads (regenerated from the AST each run) is proved to be the derivative of the '
@@ -36,7 +36,7 @@ CLAIMED = {
             'definitions regenerated from the source on every run; the implementation is executed exhaustively on the same finite domains and '
             'K_n / the re-exported special functions are compared with the analytic derivative on a grid.',
             'Lean kernel (decide +kernel, no axioms beyond propext/Quot.sound); tr_dirac translator; scipy.special values and autograd special-function vjps by contract.', '5 C20'),
-    'C14': ('Lean 4 theorems about a generic timeslice model (pointwise arithmetic, NaN pass, roll/thin/symmetrise/Hankel index maps) + model/impl correspondence on central values + statement oracle on the implementation incl. no-mutation snapshots',
+    'C14': ('Lean 4 theorems about a generic timeslice model (pointwise arithmetic, NaN pass, roll/thin/symmetrise/Hankel/item/trace index maps) + model/impl correspondence on central values + statement oracle on the implementation incl. no-mutation snapshots',
             'Proof: for every cell type, temporal extent and matrix dimension the model of Corr arithmetic is slice-wise with undefined slices propagating, '
             'and the index transformations are the stated permutations / averages (theorem list in the evidence). The model is run on the central values of '
             'every generated case and compared with pyerrors; the statement itself (entry = operation on entries, definedness, no mutation of operands or '
@@ -54,13 +54,13 @@ CLAIMED = {
             'significant digits shown is sig (sig+1 after a carry). The model runs in exact rational arithmetic and must reproduce str/format of the '
             'implementation character by character on every generated case; the read-back clause is also evaluated directly on the implementation.',
             'Lean kernel; standard axioms; np.floor(np.log10(d)) enters as an input with a checked contract; CPython float formatting / parsing trusted.', '5 C19'),
-    'C04': ('Lean 4 theorems about the constructor / normalisation / propagation models (invariant established, malformed requests rejected, invariant preserved) + invariant evaluated by the Lean driver and by an independent python predicate on every object the implementation returns + exhaustive operand-kind table',
+    'C04': ('Lean 4 theorems about the constructor / normalisation / propagation models (invariant established, malformed requests rejected, invariant preserved by derived_observable, correlate, merge_obs and reweight) + invariant evaluated by the Lean driver and by an independent python predicate on every object the implementation returns + exhaustive operand-kind table',
             'Proof: the constructor model (check by check as in Obs.__init__) establishes the invariant and rejects each listed malformed request, the '
             'configuration-list normalisation yields a range exactly when equally spaced, and derived_observable preserves the invariant (theorem list in '
             'the evidence). Every object produced by random sequences over all public producers is dumped and judged by the Lean predicate and by the '
             'statement written in python; the closure clause is decided on the full operand-kind table.',
             'Lean kernel; standard axioms; fits / roots / I/O internals only through the objects they return; Covobs validation (symmetry, eigenvalues) by correspondence only.', '5 C04'),
-    'C05': ('Lean 4 theorems (selection by configuration number, rejections, flag, sample-wise products, union of chains) + model/impl correspondence + by-configuration-number table oracle',
+    'C05': ('Lean 4 theorems (selection by configuration number, rejections, flag, reweight = <w o>/<w> paired by configuration number with value and fluctuations of the quotient, sample-wise products, union of chains) + model/impl correspondence + by-configuration-number table oracle',
             'Proof: _reduce_deltas selects by configuration number and fails when a configuration is missing; correlate yields the per-configuration '
             'products and refuses differing chains / lists; merge_obs yields the union of chains with samples unchanged and refuses duplicate replicas; '
             'reweighted results carry the flag (theorem list in the evidence). The executable model is compared with pyerrors, and a table oracle '
@@ -76,13 +76,13 @@ CLAIMED = {
             'and with python slicing, and the implementation is checked against the writer\'s own record of distinct per-(replica, configuration, slot) numbers for every format incl. '
             'sfcf text layouts, with selections and shuffled directory listings.',
             'Lean kernel; standard axioms; struct/numpy conversions; regular expressions modelled on ASCII names (first match, maximal digit run); the text layouts and the reductions (exp average, timeslice sums) are checked numerically only; Hadrons hdf5 not generated.', '5 C17'),
-    'C18': ('Lean 4 theorems: prefix safety of the record readers for every cut offset + fault enumeration of truncation offsets on the implementation + model/impl accept/reject correspondence',
+    'C18': ('Lean 4 theorems: prefix safety of the binary record readers and of the line-oriented block reader (readlines + block test) for every cut offset + fault enumeration of truncation offsets on the implementation + model/impl accept/reject correspondence',
             'Proof: for every well-formed record file and EVERY cut offset k the reader either rejects the prefix or returns exactly the first k/(4+P) records; '
             'a cut inside a payload is always rejected; surviving configuration numbers are unchanged (stream and chunked readers). On the implementation '
             'the truncation offsets of one file per synthetic set are enumerated (stratified sample in quick, all in thorough) incl. sfcf text files and '
             'json.gz / xml.gz / csv.gz archives; the Lean reader run on the same truncated bytes must agree on accept / reject and record count.',
             'Lean kernel; standard axioms; rwms 2.0 nested arrays and text layouts are covered by enumeration only; zlib / rapidjson / lxml / pandas rejection by contract.', '5 C18'),
-    'C11': ('Lean 4 theorems on the replica-table encode/decode (round trip for zero-mean chains, samples always restored) + schema regenerated from examples/json_schema.json and validated by a Lean validator cross-checked with jsonschema + deep round-trip comparison over all transports',
+    'C11': ('Lean 4 theorems on the replica-table encode/decode (round trip for zero-mean chains, samples always restored) and on the dictionary placeholder mechanism (import(export(d)) = d for every nested dictionary) + model/impl correspondence of _ol_from_dict / _od_from_list_and_dict + schema regenerated from examples/json_schema.json and validated by a Lean validator cross-checked with jsonschema + deep round-trip comparison over all transports',
             'Proof: the numerical core of the format - rows [config, delta_j + (r_j - value_j)] and the column-average decoding - is proved to restore '
             'configuration numbers, every fluctuation and every replica mean for any number of observables and configurations (zero-mean chains), and the '
             'per-configuration samples unconditionally. Every structure kind is written and re-read through strings, files (gz on/off, indent 0/1), dict files, '
@@ -98,7 +98,7 @@ CLAIMED = {
             'configurations survive and on the restored samples for every member and replica, and every list of observables (different subsets, replicas, ensembles, '
             'covariance inputs incl. cancelling gradients, count data with zeros, all separator modes, gz on/off, pobs) is compared field by field after the round trip.',
             'Lean kernel; standard axioms; lxml / gzip and %1.16e / %1.14e text conversion by contract; covariance-input layout and the pobs format are covered by the field-by-field comparison only.', '5 C12'),
-    'C13': ('Lean 4 theorems over the reals (leave-one-out, import inverts export, jackknife variance = naive variance, bootstrap means, linearity for a shared table) + exact rational model/impl correspondence + Fraction oracle',
+    'C13': ('Lean 4 theorems over the reals (leave-one-out, import inverts export, jackknife variance = naive variance, bootstrap means, linearity for a shared table, full column rank => samples determine the chain) + exact rational model/impl correspondence + Fraction oracle',
             'Proof: exported jackknife samples are the leave-one-out means with entry 0 the central value, import inverts export for every chain length >= 2, '
             'the jackknife variance equals the squared naive error, exported bootstrap samples are the means over the table rows and the export is linear '
             'for a shared table (chain consistency). The model runs in exact rational arithmetic on every generated case and is compared with pyerrors; '
